@@ -141,4 +141,106 @@ example : (⟨64, .px⟩ : Size).asPct 640 true = .ok ⟨specPct ⟨64, .px⟩ 6
   relativize_exact _ _ _ (Or.inl (by decide))
 example : specPct ⟨64, .px⟩ 640 true = 10 := by norm_num [specPct]
 
+/-! ### whole layouts (session 4): origin, extent and padding together -/
+
+def pctSize (s : Size) (dim : Nat) (hor : Bool) : Size := ⟨specPct s dim hor, .pct⟩
+def pctPoint (p : Point) (w h : Nat) : Point := ⟨pctSize p.x w true, pctSize p.y h false⟩
+def pctStretch (p : Stretch) (w h : Nat) : Stretch := ⟨pctSize p.h w true, pctSize p.v h false⟩
+def pctPadding (p : Padding) (w h : Nat) : Padding :=
+  ⟨pctSize p.before h false, pctSize p.after h false, pctSize p.start w true, pctSize p.end_ w true⟩
+
+theorem point_exact (p : Point) (w h : Nat) (hw : w ≠ 0) (hh : h ≠ 0) : p.asPct w h = .ok (pctPoint p w h) := by
+  simp [Point.asPct, relativize_exact _ _ _ (Or.inl hw), relativize_exact _ _ _ (Or.inl hh), pctPoint, pctSize]
+
+theorem stretch_exact (p : Stretch) (w h : Nat) (hw : w ≠ 0) (hh : h ≠ 0) : p.asPct w h = .ok (pctStretch p w h) := by
+  simp [Stretch.asPct, relativize_exact _ _ _ (Or.inl hw), relativize_exact _ _ _ (Or.inl hh), pctStretch, pctSize]
+
+theorem padding_exact (p : Padding) (w h : Nat) (hw : w ≠ 0) (hh : h ≠ 0) : p.asPct w h = .ok (pctPadding p w h) := by
+  simp [Padding.asPct, relativize_exact _ _ _ (Or.inl hw), relativize_exact _ _ _ (Or.inl hh), pctPadding, pctSize]
+
+/-- **C13 (whole layout, exact).** with both video dimensions supplied, relativizing a layout never fails and every
+    length of origin, extent and padding becomes the percentage it denotes; alignment is kept -/
+theorem relativize_layout_exact (l : Layout) (w h : Nat) (hw : w ≠ 0) (hh : h ≠ 0) :
+    l.asPct w h = .ok { origin := l.origin.map (pctPoint · w h), extent := l.extent.map (pctStretch · w h),
+                        padding := l.padding.map (pctPadding · w h), alignment := l.alignment, webvtt := none } := by
+  obtain ⟨o, e, p, a, v⟩ := l
+  cases o <;> cases e <;> cases p <;>
+    simp [Layout.asPct, optAsPct, point_exact _ _ _ hw hh, stretch_exact _ _ _ hw hh, padding_exact _ _ _ hw hh]
+
+/-- **C13 (whole layout, refused).** a layout with an absolute horizontal origin is refused when the width is missing,
+    whatever else it holds -/
+theorem relativize_layout_refuses_origin (l : Layout) (o : Point) (h : Nat) (ho : l.origin = some o) (hu : o.x.unit ≠ .pct) :
+    l.asPct 0 h = .error .relativization := by
+  obtain ⟨_, e, p, a, v⟩ := l
+  simp only at ho; subst ho
+  simp [Layout.asPct, optAsPct, Point.asPct, relativize_refuses _ _ hu]
+
+theorem optAsPct_some {τ : Type} (f : τ → Nat → Nat → Except Err τ) (o : Option τ) (w h : Nat) (b : τ)
+    (hb : optAsPct f o w h = .ok (some b)) : ∃ a, o = some a ∧ f a w h = .ok b := by
+  unfold optAsPct at hb
+  split at hb
+  · simp at hb
+  · rename_i a
+    split at hb
+    · rename_i b' hb'
+      simp only [Except.ok.injEq, Option.some.injEq] at hb; subst hb
+      exact ⟨a, rfl, hb'⟩
+    · simp at hb
+
+theorem asPct_parts (l l' : Layout) (w h : Nat) (hl : l.asPct w h = .ok l') :
+    optAsPct Point.asPct l.origin w h = .ok l'.origin ∧ optAsPct Stretch.asPct l.extent w h = .ok l'.extent ∧
+    optAsPct Padding.asPct l.padding w h = .ok l'.padding := by
+  unfold Layout.asPct at hl
+  split at hl
+  · simp at hl
+  · rename_i oo hoo
+    split at hl
+    · simp at hl
+    · rename_i xx hxx
+      split at hl
+      · simp at hl
+      · rename_i pp hpp
+        simp only [Except.ok.injEq] at hl
+        subst hl
+        exact ⟨hoo, hxx, hpp⟩
+
+/-- whatever dimensions were supplied: a relativized layout's extent holds percentages only -/
+theorem relativized_extent_is_percent (l l' : Layout) (w h : Nat) (hl : l.asPct w h = .ok l') (e : Stretch)
+    (he : l'.extent = some e) : e.h.unit = .pct ∧ e.v.unit = .pct := by
+  have h2 := (asPct_parts l l' w h hl).2.1
+  rw [he] at h2
+  obtain ⟨a, _, ha⟩ := optAsPct_some _ _ _ _ _ h2
+  unfold Stretch.asPct at ha
+  split at ha
+  · rename_i x y hx hy
+    simp only [Except.ok.injEq] at ha; subst ha
+    exact ⟨relativize_unit _ _ _ _ hx, relativize_unit _ _ _ _ hy⟩
+  · simp at ha
+  · simp at ha
+
+/-- … and its padding -/
+theorem relativized_padding_is_percent (l l' : Layout) (w h : Nat) (hl : l.asPct w h = .ok l') (p : Padding)
+    (hp : l'.padding = some p) : p.before.unit = .pct ∧ p.after.unit = .pct ∧ p.start.unit = .pct ∧ p.end_.unit = .pct := by
+  have h2 := (asPct_parts l l' w h hl).2.2
+  rw [hp] at h2
+  obtain ⟨a, _, ha⟩ := optAsPct_some _ _ _ _ _ h2
+  unfold Padding.asPct at ha
+  split at ha
+  · rename_i a b c d q1 q2 q3 q4
+    simp only [Except.ok.injEq] at ha; subst ha
+    exact ⟨relativize_unit _ _ _ _ q1, relativize_unit _ _ _ _ q2, relativize_unit _ _ _ _ q3, relativize_unit _ _ _ _ q4⟩
+  all_goals simp at ha
+
+/-- relativizing a relativized layout again changes nothing, with or without dimensions -/
+theorem relativize_size_idempotent (s z : Size) (dim dim' : Nat) (hor : Bool) (h : s.asPct dim hor = .ok z) :
+    z.asPct dim' hor = .ok z := by
+  have hu := relativize_unit _ _ _ _ h
+  obtain ⟨v, u⟩ := z
+  simp only at hu; subst hu
+  simp [Size.asPct]
+
+/-- non-vacuity: a 640x360 video, origin 64px / 36px, extent 2c / 1em, no padding -/
+example : (({ origin := some ⟨⟨64, .px⟩, ⟨36, .px⟩⟩, extent := some ⟨⟨2, .c⟩, ⟨1, .em⟩⟩, padding := none, alignment := none,
+              webvtt := none } : Layout).asPct 640 360).toOption.isSome = true := by
+  rw [relativize_layout_exact _ _ _ (by decide) (by decide)]; rfl
 end PcVerif.Props.C13
